@@ -695,6 +695,68 @@ def check_results(case, ctx: Ctx):
                         ctx.fail(C, "bitstrings:rate", f"t={t}, qudit {i}: {g:.4f} vs {p1:.4f}")
 
 
+# ------------------------------------------------------------------ evaluation-time matching
+@st.composite
+def match_cases(draw):
+    T = draw(st.sampled_from([16, 100, 1000, 9999, 60000, 100000, 250000]) | st.integers(8, 300000))
+    k = draw(st.integers(1, 4))
+    req = sorted({draw(st.integers(0, T)) / T for _ in range(k)})
+    # query times: on a requested time, +-0.4/0.5/0.6/1/2 ns away, and arbitrary
+    qs = []
+    for r in req:
+        for dn in draw(st.lists(st.sampled_from([0.0, 0.4, -0.4, 0.5, -0.5, 0.6, -0.6, 1.0, -1.0, 2.0, -2.0]),
+                                min_size=2, max_size=5, unique=True)):
+            qs.append(r + dn / T)
+    qs += [draw(st.floats(-0.1, 1.1)) for _ in range(2)]
+    return dict(T=T, req=req, queries=qs)
+
+
+def check_match(case, ctx: Ctx):
+    """is_time_in_evaluation_times(t, times, tol) <=> 0 <= t <= 1 and min|t - x| <= tol, and an
+    Observable stores exactly at the solver times within half a ns of a requested time."""
+    from pulser.backend import Occupation, Results, StateResult
+    from pulser_simulation import QutipConfig
+
+    C = "C20.results"
+    T, req = case["T"], case["req"]
+    tol = 0.5 / T
+    cfg = QutipConfig(observables=[StateResult()], default_evaluation_times=req)
+    ctx.nontrivial(T >= 50000 or len(req) >= 2)
+    ctx.label("long_sequence" if T >= 50000 else "short_sequence")
+    for t in case["queries"]:
+        dmin = min(abs(t - x) for x in req)
+        if abs(dmin - tol) < 1e-9 * max(1.0, tol) + 1e-15:
+            continue  # exactly on the boundary: rounding decides
+        exp = (0.0 <= t <= 1.0) and dmin <= tol
+        got = ctx.must(lambda: bool(cfg.is_time_in_evaluation_times(t, req, tol=tol)), C, "is_time_in_evaluation_times")
+        if got != exp:
+            ctx.fail(C, "time_matching:" + ("extra" if got else "missing"),
+                     f"T={T} ns, requested {req}, t={t!r} ({dmin * T:.3f} ns from the nearest, tolerance 0.5 ns): {got}")
+    # through Observable.__call__ with a hand-made Results
+    obs = Occupation(evaluation_times=req, one_state="r")
+    res = Results(atom_order=("q0",), total_duration=T)
+    st0 = mk_qstate(np.array([0.6, 0.8], dtype=complex), ["r", "g"], 1)
+    ham = mk_qop(np.eye(2, dtype=complex), ["r", "g"], 1)
+    cfg2 = QutipConfig(observables=[obs], default_evaluation_times=[1.0])
+    called = sorted({q for q in case["queries"] if 0 <= q <= 1} | set(req))
+    called = [q for i, q in enumerate(called) if i == 0 or q - called[i - 1] > 1e-12]
+    for t in called:
+        try:
+            obs(config=cfg2, t=t, state=st0, hamiltonian=ham, result=res)
+        except Exception as e:  # noqa: BLE001
+            ctx.fail(C, f"observable_call:{type(e).__name__}", f"{e}")
+    stored = res.get_result_times(obs) if obs.tag in res.get_result_tags() else []
+    want = [t for t in called if min(abs(t - x) for x in req) <= tol * (1 - 1e-9)
+            or abs(t - 1.0) <= tol * (1 - 1e-9)]  # (own times and - known finding - the default time)
+    amb = [t for t in called if abs(min(abs(t - x) for x in req) - tol) < 1e-9 * tol + 1e-15]
+    extra = [t for t in stored if t not in want and t not in amb]
+    missing = [t for t in want if t not in stored]
+    if extra or missing:
+        ctx.fail(C, "observable_call:stored_times:" + ("extra" if extra else "missing"),
+                 f"T={T} ns, requested {req}: called at {called[:8]}, stored {stored[:8]} "
+                 f"(extra {extra[:4]}, missing {missing[:4]})")
+
+
 CLAUSES = [
     Clause("observables", check_obs, gen=lambda t: obs_cases(),
            budget={"quick": (8, 120), "thorough": (16, 4000)},
@@ -702,6 +764,9 @@ CLAUSES = [
     Clause("operators", check_ops, gen=lambda t: op_cases(),
            budget={"quick": (8, 120), "thorough": (16, 4000)},
            doc="operator / state representations and algebra against numpy"),
+    Clause("time_matching", check_match, gen=lambda t: match_cases(),
+           budget={"quick": (4, 150), "thorough": (16, 3000)},
+           doc="evaluation-time matching (0.5 ns tolerance) for sequence durations up to 300 us"),
     Clause("results", check_results, gen=lambda t: res_cases(),
            budget={"quick": (16, 12), "thorough": (16, 300)},
            doc="QutipBackendV2.run(): stored times and values for every observable"),
